@@ -1159,7 +1159,7 @@ func WalkEnv(from Point, initEnv Env, target func(ssa.Instruction) bool, o WalkO
 			if o.PruneContradictions && len(st.b.Succs) == 2 && len(st.b.Instrs) > 0 {
 				if ifi, ok := st.b.Instrs[len(st.b.Instrs)-1].(*ssa.If); ok {
 					f := FactOf(ifi.Cond, k == 0)
-					if !f.L.Any(func(t *Term) bool { return t.Op == "phi" || t.Op == "unknown" }) && !f.R.Any(func(t *Term) bool { return t.Op == "phi" || t.Op == "unknown" }) {
+					if !f.L.Any(func(t *Term) bool { return t.Op == "phi" || t.Op == "unknown" }) && !f.R.Any(func(t *Term) bool { return t.Op == "phi" || t.Op == "unknown" }) && repeatedCond(st.b.Parent(), f) {
 						l, r := f.L.String(), f.R.String()
 						contra := false
 						for _, pf := range st.facts {
@@ -1227,6 +1227,40 @@ func WalkEnv(from Point, initEnv Env, target func(ssa.Instruction) bool, o WalkO
 		}
 	}
 	return out
+}
+
+// repeatedCond: the operands of f are compared by more than one branch of fn. Only such a
+// condition can be contradicted by a later branch, so only those are carried in the walk state
+// (carrying every branch taken makes the state space exponential in the number of branches of
+// a loop body).
+var repeatedCondCache = map[*ssa.Function]map[string]int{}
+
+func condKey(f Fact) string {
+	l, r := f.L.String(), f.R.String()
+	if r == "`true`" || r == "`false`" {
+		return l + "\x00bool"
+	}
+	if l > r {
+		l, r = r, l
+	}
+	return l + "\x00" + r
+}
+
+func repeatedCond(fn *ssa.Function, f Fact) bool {
+	m, ok := repeatedCondCache[fn]
+	if !ok {
+		m = map[string]int{}
+		for _, b := range fn.Blocks {
+			if len(b.Instrs) == 0 {
+				continue
+			}
+			if ifi, ok := b.Instrs[len(b.Instrs)-1].(*ssa.If); ok {
+				m[condKey(FactOf(ifi.Cond, true))]++
+			}
+		}
+		repeatedCondCache[fn] = m
+	}
+	return m[condKey(f)] > 1
 }
 
 // CanReachCP is CanReach with constant-flag folding.
